@@ -132,7 +132,13 @@ func c13Report(t *rapid.T, cfg *telemetry.UploadConfig, week string, xs []float6
 			p.Program = "example.com/unlisted"
 		}
 	}
-	switch rapid.SampledFrom([]string{"small", "small", "small", "small", "10k", "70k", "100k"}).Draw(t, "size") {
+	switch rapid.SampledFrom([]string{"small", "small", "small", "small", "10k", "70k", "100k", "exact"}).Draw(t, "size") {
+	case "exact":
+		// the merged line (the report's JSON and a newline) has exactly a round length, or one next to it:
+		// where a reader that works in blocks has its boundaries
+		round := rapid.OneOf(rapid.SampledFrom([]int{4096, 8192, 16384, 32768, 65536, 98304, 100 << 10}),
+			rapid.Map(rapid.IntRange(1, 25), func(k int) int { return k * 4096 })).Draw(t, "roundSize")
+		c13PadExact(r, round+rapid.SampledFrom([]int{0, 0, -1, 1, 2}).Draw(t, "sizeDelta"))
 	case "10k":
 		c13Pad(r, 10*1024)
 	case "70k":
@@ -141,6 +147,33 @@ func c13Report(t *rapid.T, cfg *telemetry.UploadConfig, week string, xs []float6
 		c13Pad(r, 99*1024)
 	}
 	return *r
+}
+
+// c13PadExact grows the report so that its JSON followed by a newline is exactly n bytes long, by way of
+// one counter with a long unlisted name (which the worker and the model both ignore).
+func c13PadExact(r *telemetry.Report, n int) {
+	if len(r.Programs) == 0 {
+		r.Programs = append(r.Programs, &telemetry.ProgramReport{Program: "example.com/pad", Counters: map[string]int64{}, Stacks: map[string]int64{}})
+	}
+	p := r.Programs[0]
+	if p.Counters == nil {
+		p.Counters = map[string]int64{}
+	}
+	size := func() int { b, _ := json.Marshal(r); return len(b) + 1 }
+	k := 0
+	for i := 0; i < 4; i++ {
+		p.Counters["padding:"+strings.Repeat("x", k)] = 1
+		d := n - size()
+		if d == 0 {
+			vstats.Label("exactLineLength")
+			return
+		}
+		delete(p.Counters, "padding:"+strings.Repeat("x", k))
+		if k+d < 0 {
+			return // the report is already longer
+		}
+		k += d
+	}
 }
 
 // c13Pad grows the report's JSON to about n bytes with stack entries.
